@@ -138,6 +138,13 @@ func mutateLine(r *Rng, line string) string {
 	return strings.Join(tok, " ")
 }
 
+// optionBurst lines never change the position.
+var optionBurst = []string{
+	"setoption name Use_Hash value false", "setoption name Use_Hash value true", "setoption name Hash value 1", "setoption name Hash value 3",
+	"setoption name Clear Hash", "setoption name Print Config", "setoption name Ponder value false", "setoption name Use_QSHash value false", "setoption name Use_QSHash value true",
+	"setoption name Eval_Lazy value true", "setoption name Eval_Lazy value false",
+}
+
 func c16uci(c *Ctx) {
 	rep := c.Rep
 	nSess := c.Size(400, 20000)
@@ -214,17 +221,38 @@ func c16uci(c *Ctx) {
 			if u == nil {
 				u = newUciSess()
 				u.send("setoption name Use_Book value false")
-				u.send("setoption name Hash value 2")
-				u.send("position startpos")
-				if ok, _ := u.sync(30 * time.Second); !ok {
-					rep.Viol("uci:setup-no-readyok", "no readyok after set-up", nil)
-					break
+				if sid%4 == 1 {
+					// cold start: the script meets a handler that has not seen isready or go
+					// yet (lazily created parts of the engine do not exist)
+					rep.Inc("uci_cold_start_sessions")
+				} else {
+					u.send("setoption name Hash value 2")
+					u.send("position startpos")
+					if ok, _ := u.sync(30 * time.Second); !ok {
+						rep.Viol("uci:setup-no-readyok", "no readyok after set-up", nil)
+						break
+					}
 				}
 				cur = rc.StartFEN
 			}
 			rep.Eval(1)
 			rep.Inc("uci_lines")
 			rep.DistinctStr(line)
+			if r.Chance(0.2) {
+				// a burst of option commands without isready in between: intermediate states
+				// (table switched off, resized, switched on again) are not repaired by the
+				// initialisation an isready triggers
+				nb := 1 + r.Intn(4)
+				var burst []string
+				for j := 0; j < nb; j++ {
+					burst = append(burst, optionBurst[r.Intn(len(optionBurst))])
+				}
+				for _, bl := range burst {
+					u.send(bl)
+				}
+				rep.Inc("uci_option_bursts")
+				desc = fmt.Sprintf("%s (preceded without isready by %q)", desc, burst)
+			}
 			u.send(line)
 			f := strings.Fields(line)
 			if len(f) > 0 && (f[0] == "go" || f[0] == "perft") {
